@@ -24,10 +24,10 @@ for M in "$SD"/C*-mut*; do
   # demonstration with the change (expected: FAILS), then without (expected: passes)
   if grep -q "ironcalc::" "$M/demo.rs" || grep -q "^use ironcalc::" "$M/demo.rs"; then P=ironcalc; D=xlsx/tests; else P=ironcalc_base; D=base/tests; fi
   mkdir -p $D; cp "$M/demo.rs" $D/seed_demo.rs
-  r=$(CARGO_NET_OFFLINE=true cargo test -q --offline -p $P --test seed_demo 2>&1 | grep -E "^test result|^error" | head -1)
+  r=$(CARGO_NET_OFFLINE=true cargo test -q --offline -p $P --test seed_demo 2>&1 | grep -E "^test result|^error(\[|:)" | head -1)
   echo "demo WITH change: $r" >> $LOG
   git checkout -q -- .
-  r=$(CARGO_NET_OFFLINE=true cargo test -q --offline -p $P --test seed_demo 2>&1 | grep -E "^test result|^error" | head -1)
+  r=$(CARGO_NET_OFFLINE=true cargo test -q --offline -p $P --test seed_demo 2>&1 | grep -E "^test result|^error(\[|:)" | head -1)
   echo "demo WITHOUT change: $r" >> $LOG
   rm -rf base/tests xlsx/tests/seed_demo.rs
 done
